@@ -17,7 +17,7 @@ LEVEL = "exploration"
 RULE = (
     "Hypothesis-generated CAN schemas, every message <= 64 bits: mixed int widths/signedness, enums, f32 anywhere, f64, "
     "nested structs, arrays, big-endian on byte-aligned 8/16/32/64-bit top-level leaves, multiplexing (mux_signal names an "
-    "unsigned field of the same message, mux_count 1..16), 0-3 bus names, devices, units, several bindings per struct; 3 "
+    "unsigned field of the same message, mux_count 1..16, also chained: a multiplexed field selecting a third one), 0-3 bus names, devices, units, several bindings per struct; 3 "
     "frames per message packed from boundary/random leaf values with the reference layout. Oracle for every returned "
     "{bus, contents}: (a) an own BO_/SG_/SIG_VALTYPE_/SG_MUL_VAL_ reader and cantools both load it; (b) messages of file "
     "`bus` == CAN bindings whose bus is `bus` ('default' when absent) with the binding's id, name and ceil(bits/8) length; "
@@ -32,7 +32,7 @@ ASSUMPTIONS = [
     "signedness of float signals is not compared (meaningless in DBC)",
 ]
 FLOORS = {"signed": 0.2, "float": 0.1, "enum_ge3": 0.03, "nested": 0.03, "array": 0.05, "big_endian": 0.05, "mux": 0.03,
-          "multi_bus": 0.05, "generated": 0.9}
+          "multi_bus": 0.05, "chained_mux": 0.005, "generated": 0.9}
 
 
 def gen_dbc(fcp: Any) -> Tuple[Optional[List[Dict[str, Any]]], Optional[str]]:
@@ -199,6 +199,8 @@ def classes_of(s: M.Schema) -> List[str]:
                 cl.add("big_endian")
             if "mux_signal" in d:
                 cl.add("mux")
+                if any(sb2.name == d["mux_signal"] and "mux_signal" in dict(sb2.fields) for sb2 in im.signals):
+                    cl.add("chained_mux")
     if len(expected_messages(s)) >= 2:
         cl.add("multi_bus")
     return sorted(cl)
